@@ -201,7 +201,7 @@ def r4(prog, rep):
     if not rep.names(f, "buf", "buflen", "lenread"):
         return
     rd = list(f.calls("read"))
-    ok = len(rd) == 1 and [sh(norm(a)) for a in rd[0].args][1:] == ["buf", "buflen"]
+    ok = len(rd) == 1
     fails = set()
     for b in f.blocks.values():
         if b.cond is None or len(b.succs) != 2:
@@ -213,10 +213,44 @@ def r4(prog, rep):
                 if vals and all(v == ("c", -1) for v in vals) and rd and rd[0].block.id not in seen:
                     fails.add(R[1])
     rep.check(ok and fails == {-1, 0}, "R4-fill", "entropy_read_fill fails on read() == -1 and on end-of-file", f.loc, "failing answers: %s" % sorted(fails), function=f.name, construct="read-fail")
-    adv = sorted((sh(norm(e.kid(0))), e.op, sh(norm(e.kid(1)))) for e in f.all_elems() if e.is_assign and e.op in ("+=", "-="))
-    rep.check(adv == [("buf", "+=", "lenread"), ("buflen", "-=", "lenread")], "R4-fill", "buffer pointer and remaining length advance by the bytes read", f.loc, "%s" % adv, function=f.name, construct="advance")
-    loop = any(op == ">" and sh(L) == "buflen" and R == ("c", 0) for b in f.blocks.values() if b.cond is not None for op, L, R, _, _ in cond_atoms(b.cond, True))
-    rep.check(loop, "R4-fill", "reads until the buffer is full", f.loc, "", function=f.name, construct="loop")
+    # relational (sa/poly.py), so the loop may be written with an advancing pointer or with an index: at every read the target
+    # plus the length asked for is the end of the caller's buffer, the target never precedes the buffer, and success is
+    # returned only when the target has reached the end (the whole buffer was written, each byte once, in order)
+    from .. import poly
+    from ..poly import Lin
+    if len(rd) == 1:
+        bufp = ("v", f.params[1]["name"], f.params[1]["id"])
+        lenp = ("v", f.params[2]["name"], f.params[2]["id"])
+        B0, N0 = Lin.var(("$entry", "buf")), Lin.var(("$entry", "buflen"))
+
+        def read_contract(A, call, st, cs):
+            # read(2): returns -1, or between 0 and the length asked for
+            r = Lin.var(("$ret", A.f.name, call.pos))
+            n = A.lin(call.arg(2), st)
+            out = list(cs) + poly.cons(">=", r, Lin.const(-1))
+            if n is not None:
+                out += poly.cons("<=", r, n)
+            return out
+        A = poly.Analysis(f, assume=[("==", Lin.var(bufp), B0), ("==", Lin.var(lenp), N0), (">=", N0, Lin.const(0))],
+                          quiet={"read", "warnp", "warn0", "libcperciva_warn", "warn", "warnx"}, post={"read": read_contract},
+                          unsigned_terms={lenp, ("$entry", "buflen")}).run()
+        st = A.state_before(rd[0])
+        tgt, n = A.lin(rd[0].arg(1), st), A.lin(rd[0].arg(2), st)
+        okr = tgt is not None and n is not None and A.holds(st, "==", tgt + n, B0 + N0) and A.holds(st, ">=", tgt, B0) and A.holds(st, ">=", n, Lin.const(1))
+        rep.check(okr, "R4-fill", "every read targets the first unwritten byte and asks for exactly the rest of the buffer", rd[0].where,
+                  "target + length == buf + buflen (as passed in), target >= buf and length >= 1 must hold at the read on every iteration; "
+                  "target %s, length %s" % (tgt, n), function=f.name, construct="advance")
+        full = True
+        nret = 0
+        for r in f.returns():
+            if norm(r.kid(0)) != ("c", 0):
+                continue
+            nret += 1
+            sr = A.state_before(r)
+            # the position after the last byte written: the read target's expression evaluated here equals the end
+            t2 = A.lin(rd[0].arg(1), sr)
+            full = full and t2 is not None and A.holds(sr, "==", t2, B0 + N0)
+        rep.check(full and nret >= 1, "R4-fill", "reads until the buffer is full (success only when the write position has reached the end)", f.loc, "", function=f.name, construct="loop")
     er = u.func("entropy_read")
     fl = list(er.calls("entropy_read_fill"))
     ok = len(fl) == 1 and [sh(norm(a)) for a in fl[0].args][1:] == [er.params[0]["name"], er.params[1]["name"]]
